@@ -122,3 +122,20 @@ pub assume_specification[ i64::max_value ]() -> (r: i64)
     ensures
         r == i64::MAX,
 ;
+
+// transcendental functions: total, results unconstrained (A-float)
+pub assume_specification[ f64::sin ](x: f64) -> f64;
+
+pub assume_specification[ f64::cos ](x: f64) -> f64;
+
+pub assume_specification[ f64::tan ](x: f64) -> f64;
+
+pub assume_specification[ f64::asin ](x: f64) -> f64;
+
+pub assume_specification[ f64::acos ](x: f64) -> f64;
+
+pub assume_specification[ f64::atan ](x: f64) -> f64;
+
+pub assume_specification[ f64::atan2 ](x: f64, y: f64) -> f64;
+
+pub assume_specification[ f64::hypot ](x: f64, y: f64) -> f64;
